@@ -13,7 +13,9 @@ def fr(x):
 
 
 def act_tokens(a):
-    if a[0] == 'note':
+    if a[0] == 'yar':
+        return f'y {a[1]}'       # YieldAndReset(d) once, the restarted body going on after it = a yield of d
+    if a[0] in ('note', 'pseed'):
         return 'log'             # to the time model a note event is a log line; its bundles are in the NRT score
     if a[0] == 'draw':
         return 'draw'            # which builtin random function is called does not matter to the model
@@ -82,6 +84,7 @@ def expected(case, start=0, clocks_exact=True):
     start = F(start)
     maps = [TempoMap(t, start) for t in case['tempi']]
     R, L, spawn_at, defer_at = {}, {}, {}, {}
+    sub_pc = {}                       # class N: position of each pulled sub-stream
     sig_at = {}                       # class U: the root signals / unhangs a condition
     pause_at, resume_at = {}, {}      # class P: the root pauses / resumes (without a clock argument) another routine
 
@@ -97,7 +100,7 @@ def expected(case, start=0, clocks_exact=True):
         L[rid] = []
         for k, a in enumerate(case['rts'][rid]):
             s = b2s(clk, b)
-            if a[0] == 'y':
+            if a[0] in ('y', 'yar'):           # yar d: YieldAndReset(d), the restarted body goes on after it
                 b = b + F(a[1])
                 if rid in pause_at and b2s(clk, b) > pause_at[rid]:
                     # this wake-up finds the routine paused and is dropped; resume() puts the routine back on the
@@ -110,6 +113,19 @@ def expected(case, start=0, clocks_exact=True):
                 R[(rid, k + 1)] = (clk, b, b2s(clk, b))
             elif a[0] in ('hang', 'raise', 'yinf', 'yv'):
                 return
+            elif a[0] == 'pull':
+                # a routine used as a stream, resumed with next() by this one: it runs at this routine's logical time
+                sc, pc = case['rts'][a[1]], sub_pc.get(a[1], 0)
+                while pc < len(sc):
+                    x = sc[pc]
+                    pc += 1
+                    if x[0] == 'y':
+                        break
+                    if x[0] == 'log':
+                        L.setdefault(a[1], []).append((s, s))
+                    elif x[0] == 'spawn':
+                        spawn_at.setdefault(x[1], (x[2], s))
+                sub_pc[a[1]] = pc
             elif a[0] == 'spawnabs':
                 spawn_at.setdefault(a[1], ('sys', s + F(a[2])))
             elif a[0] in ('sig', 'unh') and mutate:
@@ -217,7 +233,7 @@ class Check(common.Check):
                 'spawns on SystemClock / TempoClocks (tempi 2^k) / AppClock (NRT), tempo changes by the root (`tempo=` and '
                 '`etempo`), bodies that raise (logged by the clock) while other routines go on; four '
                 'classes: plain multi-clock, single-clock with tempo changes, multi-clock with tempo changes, '
-                'NRT-only with AppClock; 6% unhang/signal of a waiter on a TempoClock at a fractional beat, 6% reset()-while-pending plus tempo change (NRT), 6% children started with SystemClock.sched_abs(logical now + d) under RT lateness (these three judged by the script-only oracle, no model line); 10% pause/resume-without-clock of a routine on a TempoClock (tempo != 1) or AppClock by a controller on another clock; each runs in NRT (main.process) and in RT under virtual time with a '
+                'NRT-only with AppClock; 7% routines pulled with next() from inside a playing routine (they log and play children at the time of the puller), YieldAndReset(d) before a wait / a pause on a TempoClock, 6% unhang/signal of a waiter on a TempoClock at a fractional beat, 6% reset()-while-pending plus tempo change (NRT), 6% children started with SystemClock.sched_abs(logical now + d) under RT lateness (these three judged by the script-only oracle, no model line); 10% pause/resume-without-clock of a routine on a TempoClock (tempo != 1) or AppClock by a controller on another clock; each runs in NRT (main.process) and in RT under virtual time with a '
                 'scripted lateness (zero, common, per-thread, per-wake-up random incl. lateness larger than the '
                 'next delta). Non-trivial: >=2 routines, >=1 yield with delta>0 and (a tempo clock or a lateness>0); '
                 'distinct by full case')
@@ -267,6 +283,11 @@ class Check(common.Check):
         target = [['log']]
         for d in deltas:
             target += [['y', d]] + ([['log']] if rng.random() < 0.6 else [])
+        if k and rng.random() < 0.4:
+            j = 1 + 2 * 0
+            ys = [n_ for n_, a in enumerate(target) if a[0] == 'y'][:k]
+            j = rng.choice(ys)
+            target[j] = ['yar', target[j][1]]
         ctl = [['spawn', 1, tclk], ['y', fr(sp * rt_)], ['pause', 1], ['y', fr((sr - sp) * rt_)], ['resume', 1]]
         if rng.random() < 0.5:
             ctl += [['log'], ['y', rng.choice(['1/2', '1'])], ['log']]
@@ -279,6 +300,9 @@ class Check(common.Check):
         tempi = [rng.choice(['1/2', '1', '2', '4'])]
         t = F(tempi[0])
         pre = [['y', rng.choice(['1/4', '1/2', '1'])] for _ in range(rng.randint(0, 2))]
+        if rng.random() < 0.5:
+            # the waiter first raises YieldAndReset(d): it stays on ITS clock for everything that follows
+            pre.insert(rng.randrange(len(pre) + 1), ['yar', rng.choice(['1/2', '1'])])
         t_wait = sum(F(a[1]) for a in pre) / t
         at = t_wait + rng.choice([F(1, 8), F(1, 4), F(3, 8), F(5, 8), F(3, 4), F(9, 8)]) / t     # beats fractional
         waiter = [['log']] + pre + [['wait', 0], ['log']]
@@ -287,6 +311,27 @@ class Check(common.Check):
         ctl = [['spawn', 1, 't0'], ['y', fr(at)], [rng.choice(['unh', 'unh', 'sig']), 0], ['log'], ['y', '1/2'], ['log']]
         return {'tempi': tempi, 'root': 'sys', 'rts': [ctl, waiter], 'klass': 'U', 'tail': '0', 'rerun': False,
                 'late': {'mode': 'zero', 'vals': []}, 'nomodel': True}
+
+    def gen_nested(self, rng):
+        """Routines used as streams: pulled with next() from inside a playing routine; they log the time and play
+        children, which all happens at the puller's current logical time."""
+        tempi = [rng.choice(TEMPI)]
+        root = rng.choice(['sys', 'sys', 't0'])
+        sub = []
+        nchild = rng.randint(0, 2)
+        for j in range(rng.randint(2, 4)):
+            sub += [['log']] + ([['spawn', 2 + j, rng.choice(['sys', 't0'])]] if j < nchild else []) + [['y', '0']]
+        rts = [[], sub]
+        for j in range(nchild):
+            rts.append([['log'], ['y', rng.choice(['1/4', '1/2', '1'])], ['log']])
+        for _ in range(rng.randint(2, 5)):
+            rts[0] += [['y', rng.choice(['1/4', '1/2', '1', '3/2'])], ['log']] + ([['pull', 1]] if rng.random() < 0.7 else [])
+        if not any(a[0] == 'pull' for a in rts[0]):
+            rts[0].append(['pull', 1])
+        mode = rng.choice(['zero', 'common', 'random'])
+        late = {'mode': mode, 'vals': [rng.choice(['1/4', '1/2', '1/64', '1']) for _ in range(rng.randint(1, 3))]}
+        return {'tempi': tempi, 'root': root, 'rts': rts, 'klass': 'N', 'tail': '0', 'rerun': False, 'late': late,
+                'nomodel': True}
 
     def gen_reset(self, rng):
         """NRT: a routine pending on a TempoClock is reset() from outside, and the tempo changes (either order):
@@ -364,6 +409,8 @@ class Check(common.Check):
             return self.gen_reset(rng)
         if w < 0.18:
             return self.gen_schedabs(rng)
+        if w < 0.25:
+            return self.gen_nested(rng)
         if rng.random() < 0.1:
             return self.gen_pause(rng)
         klass = rng.choice('AAABBCCD')
